@@ -2,7 +2,7 @@
    preserves WF; histories of proved calls preserve WF; refutation witnesses. *)
 From Coq Require Import ZArith List Bool PArith FMapPositive Lia.
 From XV Require Import C01.Model C01.Spec C01.ProofsBase C01.ProofsWfb C01.ProofsFrame C01.ProofsUses
-  C01.ProofsOperands C01.ProofsRauw C01.ProofsDll C01.ProofsOps.
+  C01.ProofsOperands C01.ProofsRauw C01.ProofsSetOperands C01.ProofsDll C01.ProofsOps C01.ProofsBlocks.
 Import ListNotations.
 Local Open Scope Z_scope.
 
@@ -15,21 +15,29 @@ Proof. apply wf_b_sound. vm_compute. reflexivity. Qed.
    correspondence check + evaluation of wf_b on the model after every call) *)
 Definition proved_call (c : call) : bool :=
   match c with
-  | COperandSetItem _ _ _ | CSuccessorSetItem _ _ _
+  | CSetOperands _ _ | COperandSetItem _ _ _ | CSuccessorSetItem _ _ _
   | CReplaceAllUsesWith _ _ | CReplaceUsesWithIf _ _ _ | CValueErase _ _
   | CPrReplaceAllUsesWith _ _ _ | CPrReplaceUsesWithIf _ _ _
   | CInsertOpAfter _ _ _ | CInsertOpBefore _ _ _ | CAddOp _ _ | CDetachOp _ _ | COpDetach _ => true
+  | CDetachBlock _ _ | CDetachBlockIdx _ _ => true
+  (* the block-list calls are proved for a single block *)
+  | CAddBlock _ [_] | CInsertBlockBefore _ [_] _ | CRwInsertBlock [_] _ _ => true
   | _ => false
   end.
 
 (* "objects erased by a successful erase call are not used again", per constructor *)
 Definition args_live (s : state) (c : call) : Prop :=
   match c with
-  | COperandSetItem o _ _ | CSuccessorSetItem o _ _ => op_live s o
+  | CSetOperands o _ | COperandSetItem o _ _ | CSuccessorSetItem o _ _ => op_live s o
   | CInsertOpAfter b _ ex | CInsertOpBefore b _ ex => blk_live s b /\ op_live s ex
   | CAddOp b o | CDetachOp b o => blk_live s b /\ op_live s o
   | COpDetach o => op_live s o /\
                    (forall x b, PM.find o (s_ops s) = Some x -> o_parent x = Some b -> blk_live s b)
+  | CDetachBlock r b => reg_live s r /\ blk_live s b
+  | CDetachBlockIdx r _ => reg_live s r
+  | CAddBlock r [b] => reg_live s r /\ blk_live s b
+  | CInsertBlockBefore r [b] t => reg_live s r /\ blk_live s b /\ blk_live s t
+  | CRwInsertBlock [b] r ib => reg_live s r /\ blk_live s b /\ match ib with Some t => blk_live s t | None => True end
   | _ => True
   end.
 
@@ -49,6 +57,7 @@ Theorem step_preserves : forall s c p,
 Proof.
   intros s c p W PC AL H. unfold step in *. destruct (do_call c s) as [s' r] eqn:E. simpl in *. subst r.
   destruct c; simpl in PC; try discriminate; simpl in E, AL.
+  - apply unit_ok in E. exact (set_operands_WF _ _ _ _ _ W AL E).
   - apply unit_ok in E. exact (operands_setitem_WF _ _ _ _ _ _ W AL E).
   - apply unit_ok in E. exact (successors_setitem_WF _ _ _ _ _ _ W AL E).
   - apply unit_ok in E. destruct AL as [OL BL]. unfold op_detach in E.
@@ -63,6 +72,23 @@ Proof.
   - apply unit_ok in E. destruct AL as [A1 A2]. exact (insert_op_before_WF _ _ _ _ _ _ W A1 A2 E).
   - apply unit_ok in E. destruct AL as [A1 A2]. exact (add_op_WF _ _ _ _ _ W A1 A2 E).
   - apply lift_ok in E as (a & E). destruct AL as [A1 A2]. exact (detach_op_WF _ _ _ _ _ W A1 A2 E).
+  - (* CAddBlock *) destruct blocks as [|b [|]]; try discriminate. apply unit_ok in E. destruct AL as [A1 A2].
+    exact (add_block1_WF _ _ _ _ _ W A1 A2 E).
+  - (* CInsertBlockBefore *) destruct blocks as [|b [|]]; try discriminate. apply unit_ok in E. destruct AL as (A1 & A2 & A3).
+    exact (insert_block_before1_WF _ _ _ _ _ _ W A1 A2 A3 E).
+  - (* CDetachBlock *) apply lift_ok in E as (a & E). destruct AL as [A1 A2]. exact (detach_block_WF _ _ _ _ _ W A1 A2 E).
+  - (* CDetachBlockIdx *) apply lift_ok in E as (a & E). exact (detach_block_idx_WF _ _ _ _ _ W AL E).
+  - (* CRwInsertBlock *) destruct blocks as [|b [|]]; try discriminate. apply unit_ok in E. destruct AL as (A1 & A2 & A3).
+    unfold rw_insert_block in E. apply bind_ok in E as (s0 & ? & Hc & E).
+    assert (s0 = s).
+    { unfold check_block_insert_point in Hc. destruct insert_before as [t|].
+      - apply bind_ok in Hc as (s1 & br & Hg & Hc). apply getB_ok in Hg as [-> _].
+        destruct (negb (opt_eqb (b_parent br) (Some region))); [exfalso; eapply raise_ok; eauto|].
+        apply ret_ok in Hc as [-> _]. reflexivity.
+      - apply ret_ok in Hc as [-> _]. reflexivity. }
+    subst s0. destruct insert_before as [t|].
+    + exact (insert_block_before1_WF _ _ _ _ _ _ W A1 A2 A3 E).
+    + exact (add_block1_WF _ _ _ _ _ W A1 A2 E).
   - apply unit_ok in E. exact (pr_replace_all_uses_with_WF _ _ _ _ _ _ W E).
   - apply unit_ok in E. exact (pr_replace_uses_with_if_WF _ _ _ _ _ _ W E).
 Qed.
